@@ -49,6 +49,8 @@ def _worker(modname, tier, seed, widx, ncases, q):
     try:
         import importlib
         from hypothesis import HealthCheck, Phase, given, seed as hseed, settings
+        import hypothesis.internal.conjecture.engine as _ce
+        _ce.MAX_SHRINKING_SECONDS = int(os.environ.get("RV_SHRINK_S", "60" if tier == "quick" else "240"))
         mod = importlib.import_module(modname)
         spec = mod.SPEC
         known = load_known()
@@ -74,8 +76,13 @@ def _worker(modname, tier, seed, widx, ncases, q):
             v = out.violation
             if v is not None and v["property"] != spec.id:
                 if counting:
-                    stats["foreign"][v["property"] + "/" + v["clause"]] += 1
-                v = None
+                    key = v["property"] + "/" + v["clause"]
+                    stats["foreign"][key] += 1
+                    if os.environ.get("RV_KEEP_FOREIGN"):
+                        d = os.path.join(VERIF, "target", "foreign")
+                        os.makedirs(d, exist_ok=True)
+                        with open(os.path.join(d, "%s-%s-%s.json" % (spec.id, key.replace("/", "_"), case_hash(case))), "w") as f:
+                            json.dump({"property": v["property"], "case": case, "violation": v}, f, indent=1, default=str)
                 return
             if v is not None:
                 k = match_known(spec.id, v.get("sig", {}), known)
@@ -186,6 +193,11 @@ def run_property(modname, tier, seed, workers=None):
             errors.append(msg)
     for p in procs:
         p.join()
+    try:
+        from . import hist as _h
+        _h.cleanup_scratch()
+    except Exception:
+        pass
     merged = {"evaluations": 0, "hashes": set(), "events": collections.Counter(), "commands": 0, "scripts": 0,
               "samples": [], "foreign": collections.Counter(), "known_hits": collections.Counter(),
               "inconclusive": 0}
